@@ -2,6 +2,7 @@ import Model.C08
 import Generated.C08
 import Proofs.C08
 import Proofs.C08.World
+import Proofs.C08.Loop
 /-!
 # C08 — a lifecycler edits only its own ring entry and follows the state machine
 
@@ -125,6 +126,113 @@ theorem world_entry_evolution (w0 : World) (hwf : WF (w0.store.getD [])) (hd : D
     (x.state = y.state ∨ allowed x.state y.state = true ∨ (x.state = .LEAVING ∧ y.state = .ACTIVE)) ∧
     y.regTs = x.regTs ∧ x.ts ≤ y.ts :=
   PfC08.world_pub (PfC08.winv_init hwf hd hfresh hts) acts a hr i nd hnd hk x y hx hy
+
+/-! ### the service loops (select loops of `Lifecycler.loop/stopping`, `BasicLifecycler.starting/running/stopping`)
+
+`C08.loopNext` says which handler a loop event (start, join timer, observe timer + its `activate` continuation,
+heartbeat tick, actor-channel request, CheckReady, ctx.Done, shutdown finished, kill) runs in which control state;
+`LSys` = n such loops + foreign writers on one ring. A loop event runs exactly one handler, so: -/
+
+/-- every schedule of loop iterations IS a schedule of the handler-level world (same ring, same remembered selves), and
+a valid loop schedule flattens into a valid world schedule. -/
+theorem loop_refines_world (unreg : Nat → Bool) (s : LSys) (as : List LAct) :
+    (lrun unreg s as).w = World.run s.w (lflatten unreg s as) ∧
+    (LRunGood unreg s as → WRunOK s.w (lflatten unreg s as)) :=
+  ⟨PfC08.lrun_w unreg as s, PfC08.lrunGood_flatten unreg as s⟩
+
+/-- Hence, for EVERY schedule of loop iterations of n lifecyclers and foreign writers (clock monotone, claims asked of a
+registered instance, foreign writers respecting the frame), started before any process has run: each iteration leaves
+the published entry of every full Lifecycler on a legal state edge, with its registration time and a heartbeat that
+did not go back (state_edges, registered_once, heartbeat_monotone lifted to the loops). -/
+theorem loop_entry_evolution (unreg : Nat → Bool) (s0 : LSys) (hwf : WF (s0.w.store.getD [])) (hd : Distinct s0.w)
+    (hfresh : ∀ (i : Nat) (nd : Node), s0.w.nodes[i]? = some nd → nd.l = {})
+    (hts : ∀ (i : Nat) (nd : Node), s0.w.nodes[i]? = some nd → ∀ e, Desc.get? (s0.w.store.getD []) nd.cfg.id = some e → e.ts ≤ s0.w.clock)
+    (pre : List LAct) (a : LAct) (hr : LRunGood unreg s0 (pre ++ [a])) (i : Nat) (nd : Node)
+    (hnd : (lrun unreg s0 pre).w.nodes[i]? = some nd) (hk : nd.cfg.kind = .LC) (x y : Inst)
+    (hx : Desc.get? ((lrun unreg s0 pre).w.store.getD []) nd.cfg.id = some x)
+    (hy : Desc.get? ((lrun unreg s0 (pre ++ [a])).w.store.getD []) nd.cfg.id = some y) :
+    (x.state = y.state ∨ allowed x.state y.state = true ∨ (x.state = .LEAVING ∧ y.state = .ACTIVE)) ∧
+    y.regTs = x.regTs ∧ x.ts ≤ y.ts :=
+  PfC08.loop_pub unreg (PfC08.winv_init hwf hd hfresh hts) pre a hr i nd hnd hk x y hx hy
+
+/-- frame for one loop iteration (any event, any control state, either kind): every OTHER entry is left alone, removed
+(auto-forget) or loses its tokens (hand-over) — `EnvOK`; the precise exceptions are those of `frame`. -/
+theorem loop_frame (unreg : Nat → Bool) (s : LSys) (i : Nat) (ev : LEvent) (now : Int) (gen : Gen) (nd : Node)
+    (hwf : WF (s.w.store.getD [])) (hnd : s.w.nodes[i]? = some nd) (k : String) (hk : k ≠ nd.cfg.id) :
+    EnvOK k s.w.store (lstep unreg s (.loop i ev now gen)).w.store :=
+  PfC08.loop_frame unreg s i ev now gen nd hwf hnd k hk
+
+/-- A running lifecycler stays registered: along every valid loop schedule in which nobody removes OTHER instances'
+entries (foreign writers keep them; a heartbeat with the auto-forget delegate finds none stale — `NoRemoval`), every
+lifecycler whose service is Starting, Running or Stopping has its entry in the ring. -/
+theorem running_stays_registered (unreg : Nat → Bool) (s : LSys) (as : List LAct) (hw : WInv s.w) (hI : RegInv s)
+    (hr : LRunKeeps unreg s as) (i : Nat) (nd : Node) (hnd : (lrun unreg s as).w.nodes[i]? = some nd)
+    (hal : Alive ((lrun unreg s as).ctl i).phase) :
+    (Desc.get? ((lrun unreg s as).w.store.getD []) nd.cfg.id).isSome = true :=
+  PfC08.lrun_registered unreg as s hw hI hr i nd hnd hal
+
+/-- ... and a heartbeat, ChangeState or ChangeReadOnlyState of a registered instance republishes the tokens the ring
+records (`PC09.heartbeat_keeps_ring_tokens` for the heartbeat): the own tokens in the ring only change through the
+join timer, a failed verification, or a hand-over. Initially (nobody started) `RegInv` holds trivially: -/
+theorem nobody_started_registered (s : LSys) (h : ∀ i, (s.ctl i).phase = .new) : RegInv s := by
+  intro i nd _ hal
+  rw [h i] at hal
+  rcases hal with h1 | h1 | h1 <;> cases h1
+
+/-- `ready_implies_active` at full strength for the loops: in every valid loop schedule in which nobody removes other
+instances' entries (so `ready_without_entry_witness` cannot arise), a `CheckReady` of a full Lifecycler whose service
+is alive that answers ok for the first time finds the lifecycler ACTIVE and holding tokens. (`hR`, `hS` hold when nobody
+has started: `nobody_started_registered`, and trivially for `StartedInv`.) -/
+theorem ready_implies_active (unreg : Nat → Bool) (s : LSys) (as : List LAct) (hw : WInv s.w) (hR : RegInv s) (hS : StartedInv s)
+    (hr : LRunKeeps unreg s as) (i : Nat) (nd : Node) (hnd : (lrun unreg s as).w.nodes[i]? = some nd)
+    (hk : nd.cfg.kind = .LC) (hal : Alive ((lrun unreg s as).ctl i).phase) (now : Int) (getFails : Bool)
+    (hnot : nd.l.ready = false) (h : (lcCheckReady nd.cfg nd.l (lrun unreg s as).w.store now getFails).2 = .ok) :
+    nd.l.state = .ACTIVE ∧ nd.l.tokens ≠ [] :=
+  PfC08.ready_active_loops unreg s as hw hR hS hr i nd hnd hk hal now getFails hnot h
+
+/-- Stopping, full Lifecycler: on `ctx.Done()` a running ACTIVE lifecycler leaves the loop and what it writes is its own
+entry in state LEAVING with the ring's tokens. -/
+theorem stop_publishes_leaving (unregister : Bool) (c : Cfg) (ctl : Ctl) (l : Local) (file : File) (store : Option Desc)
+    (now : Int) (gen : Gen) (hk : c.kind = .LC) (hp : ctl.phase = .running) (hpend : ctl.pending = false)
+    (hs : l.started = true) (ha : l.state = .ACTIVE) :
+    loopNext unregister c ctl l file store .stop now gen =
+      some (.own (.changeState .LEAVING) now gen .none, { ctl with phase := .stopping }) ∧
+    ∃ b, (step c l file store (.changeState .LEAVING) now gen .none).out = .write (put (store.getD []) b) ∧
+      b.id = c.id ∧ b.state = .LEAVING ∧ (∀ e, Desc.get? (store.getD []) c.id = some e → b.tokens = e.tokens) :=
+  PfC08.lc_stop_leaving hk hp hpend hs ha
+
+/-- Stopping, BasicLifecycler with the LeaveOnStopping delegate: afterwards the registered entry is LEAVING, tokens and
+registration time kept. -/
+theorem basic_stop_publishes_leaving (unregister : Bool) (c : Cfg) (ctl : Ctl) (l : Local) (file : File) (d : Desc) (e : Inst)
+    (now : Int) (gen : Gen) (hk : c.kind = .BLC) (hp : ctl.phase = .running) (hs : l.started = true)
+    (he : Desc.get? d c.id = some e) :
+    loopNext unregister c ctl l file (some d) .stop now gen =
+      some (.own .stopDelegate now gen .none, { ctl with phase := .stopping }) ∧
+    ∃ b, Desc.get? ((commit (some d) (step c l file (some d) .stopDelegate now gen .none) .none).getD []) c.id = some b ∧
+      b.state = .LEAVING ∧ b.tokens = e.tokens ∧ b.regTs = e.regTs :=
+  PfC08.blc_stop_leaving hk hp hs he
+
+/-- End of shutdown, either kind: the service terminates; with unregister-on-shutdown it removes its OWN entry and
+nothing else, otherwise it writes nothing (the entry stays, LEAVING). -/
+theorem stop_done_per_config (unregister : Bool) (c : Cfg) (ctl : Ctl) (l : Local) (file : File) (d : Desc) (now : Int) (gen : Gen)
+    (hp : ctl.phase = .stopping) (hs : l.started = true) :
+    ∃ a, loopNext unregister c ctl l file (some d) .stopDone now gen = some (a, { phase := .terminated }) ∧
+      (unregister = false → a = .crash) ∧
+      (unregister = true → a = .own .unregister now gen .none ∧
+        (step c l file (some d) .unregister now gen .none).out = .write (erase d c.id) ∧
+        Desc.get? (erase d c.id) c.id = none ∧ ∀ k, k ≠ c.id → Desc.get? (erase d c.id) k = Desc.get? d k) :=
+  PfC08.stopDone_per_config hp hs
+
+example : -- non-vacuity: start, join timer, heartbeat, ctx.Done, shutdown finished of an unregistering lifecycler next to "b"
+    let nd : Node := { cfg := { id := "a", numTokens := 1 } }
+    let s0 : LSys := { w := { store := some [{ id := "b", ts := 1, tokens := [9] }], nodes := [nd], clock := 1 } }
+    let g : Gen := fun _ _ => [3]
+    let acts := [LAct.loop 0 (.start []) 2 g, .loop 0 .joinTimer 3 g, .loop 0 .heartbeat 4 g, .loop 0 .stop 5 g]
+    ((lrun (fun _ => true) s0 acts).w.store.getD []).map (fun i => (i.id, i.state, i.ts, i.tokens)) =
+      [("a", .LEAVING, 5, [3]), ("b", .ACTIVE, 1, [9])] ∧
+    ((lrun (fun _ => true) s0 acts).ctl 0).phase = .stopping ∧
+    ((lrun (fun _ => true) s0 (acts ++ [.loop 0 .stopDone 6 g])).w.store.getD []).map (·.id) = ["b"] := by
+  decide
 
 /-- BasicLifecycler (no transition table: `ChangeState` publishes what the caller asks for): every write
 keeps the registration timestamp, does not move the heartbeat backwards (and not past `now`), and
